@@ -510,6 +510,8 @@ func loadMetadata(bs []byte) (*meta, error) {
 
 	for _, so := range sos {
 		if _, exists := knownSections[so.Name]; !exists {
+			// Skip over the unknown section.
+			offset += so.Length
 			continue
 		}
 		if so.Name == "responses" {
